@@ -243,6 +243,13 @@ fn run_oracle(spec: &RunSpec, cl: &mut u64) -> Result<(), Failure> {
         return soft_fail(f);
     }
     if let Err(e) = res {
+        let (al, be) = match &spec.tpl {
+            Tpl::As { alpha, beta, .. } | Tpl::Mmas { alpha, beta, .. } => (*alpha, *beta),
+            _ => (0.0, 0.0),
+        };
+        if matches!(spec.inst, Inst::Tsp { kind: 7, .. }) && al + be > 1.0 && e.contains("non-finite") {
+            return soft_fail(Failure::new("C19 ACO sampling weights overflow on an instance in a unit of 1e-160 (alpha + beta > 1)", format!("{spec:?}: {e}")));
+        }
         return soft_fail(Failure::new(format!("C19 ACO run fails: {}", crate::engine::sig_of_panic(&e.chars().take(60).collect::<String>())), format!("{spec:?}: {e}")));
     }
     if a.generations != spec.iters || a.updates != spec.iters {
@@ -378,7 +385,14 @@ fn aco_spec_strategy(max_iters: u32) -> impl Strategy<Value = RunSpec> {
             (tpl_strategy(i, d), Just(inst), prop_oneof![3 => 1u32..20, 1 => 50u32..=max_iters.max(51)], any::<u64>())
         })
     })
-    .prop_map(|(tpl, inst, iters, seed)| RunSpec { tpl, inst, iters, seed })
+    .prop_map(|(mut tpl, inst, iters, seed)| {
+        // see fixtures::run::run_spec_strategy: recorded finding D23, excluded by construction
+        if let (Tpl::As { alpha, beta, .. } | Tpl::Mmas { alpha, beta, .. }, Inst::Tsp { kind: 7, .. }) = (&mut tpl, &inst) {
+            *alpha = alpha.min(0.5);
+            *beta = beta.min(0.5);
+        }
+        RunSpec { tpl, inst, iters, seed }
+    })
 }
 
 pub fn run_all(ctx: &mut Ctx, replay: Option<&Path>) {
@@ -392,6 +406,11 @@ pub fn run_all(ctx: &mut Ctx, replay: Option<&Path>) {
     }
     ctx.regressions(&r);
     ctx.regressions(&d);
+    ctx.exhaustive(
+        &r,
+        "directed probe of a recorded finding: ant system with alpha = beta = 1 on a 3-city instance in a unit of 1e-160",
+        [RunSpec { tpl: Tpl::As { ants: 1, alpha: 1.0, beta: 1.0, tau0: 0.0, rho: 0.0, decay: 0.1 }, inst: Inst::Tsp { n: 3, kind: 7, seed: 557 }, iters: 2, seed: 0 }].into_iter(),
+    );
     ctx.random(&r, aco_spec_strategy(ctx.tier.pick(80, 200)), ctx.tier.pick(8000, 40_000));
     ctx.random(
         &d,
